@@ -478,6 +478,26 @@ def sec_corpus(ctx, B):
                 far = G.component_without_edge(len(c), edges, a[1], a[2])
                 rotdih_case(ctx, B, mol, edges, tuple(a), far, r["target"], dvar)
                 ctx.count("corpus.rotate_dihedral")
+            elif r.get("op") == "align_vec_is_own_row":
+                c = np.array(r["coords"], dtype=float)
+                edges = [tuple(e) for e in r["edges"]]
+                core = list(r["core"])
+                for kind in ("molecule", "ensemble"):
+                    mol = G.build_molecule(ml, ["C"] * len(c), edges, c, name="corpus")
+                    obj = mol if kind == "molecule" else ml.ConformerEnsemble([mol, G.build_molecule(ml, ["C"] * len(c), edges, c[::-1] * 1.0, name="c2")])
+                    refm = G.build_molecule(ml, ["C"] * len(c), edges, np.array(r["ref"], dtype=float), name="ref")
+                    refm.translate(-refm.coords[core].mean(axis=0))
+                    vec = obj.coords[r["k"]] if kind == "molecule" else obj.coords[0, r["k"]]
+                    vec0 = np.array(vec).copy()
+                    ret = obj.align_to_ref_coords(G.kabsch, [core], refm.substructure(core), vec)
+                    fin = np.array(obj.coords) if kind == "molecule" else np.array(obj.coords)[0]
+                    ret0 = float(ret) if kind == "molecule" else float(ret[0])
+                    ach = G.rmsd(fin[core], refm.coords[core] + vec0)
+                    if abs(ach - ret0) > 1e-8:
+                        ctx.violation("C11:aliased-argument-wrong-effect",
+                                      f"{kind} align with vec = a row of its own coordinates: returned {ret0!r}, achieved {ach!r} against reference + (vec before the call)", r)
+                    ctx.case(["corpus-align-alias", kind, r["coords"], core, r["k"]], nontrivial=True)
+                ctx.count("corpus.align-vec-alias")
             elif r.get("op") == "rotation_matrix_from_vectors":
                 v1, v2 = np.array(r["v1"], dtype=float), np.array(r["v2"], dtype=float)
                 kw = {} if r.get("tol") is None else {"tol": r["tol"]}
@@ -935,6 +955,347 @@ def sec_ensembles(ctx, B, nens):
         multisite_align_cases(ctx, B, ml, sample=(ei == 0))
 
 
+# ------------------------------------------------------------------------------------------
+# F. argument aliasing: vectors / matrices / reference coordinates that are views of live coordinate arrays
+# ------------------------------------------------------------------------------------------
+INT_ROTS = [[[0, -1, 0], [1, 0, 0], [0, 0, 1]], [[1, 0, 0], [0, 0, -1], [0, 1, 0]], [[0, 0, 1], [1, 0, 0], [0, 1, 0]],
+            [[-1, 0, 0], [0, -1, 0], [0, 0, 1]], [[0, 1, 0], [1, 0, 0], [0, 0, -1]]]
+
+
+def sec_aliasing(ctx, B, n):
+    """Every operation that takes a vector, a matrix or reference coordinates is called with arguments that are
+    views of the object's OWN coordinate array (a row, a column of an ensemble), views of ANOTHER object's array, read-only
+    arrays and integer arrays.  (a) the effect must be the documented one for the value the argument had BEFORE the call;
+    (b) whatever is not part of the moved object must be bit-identical afterwards."""
+    import molli as ml
+    from molli.math.rotation import rotation_matrix_from_axis as rma, rotation_matrix_from_vectors as rmv
+    rng = ctx.rng
+
+    def effect(what, got, exp, tag, tol=1e-12):
+        if not G.close(np.asarray(got, dtype=float), np.asarray(exp, dtype=float), tol):
+            ctx.violation("C11:aliased-argument-wrong-effect",
+                          f"{what}: the result is not the documented effect for the value the argument had before the call", tag)
+            return False
+        return True
+
+    def untouched(what, arr, before_bytes, tag):
+        if np.asarray(arr).tobytes() != before_bytes:
+            ctx.violation("C11:argument-modified", f"{what}: an array that is not part of the moved object was overwritten by the call", tag)
+            return False
+        return True
+
+    def attempt(what, fn, tag):
+        try:
+            return True, fn()
+        except Exception as e:  # noqa: BLE001
+            ctx.violation("C11:argument-form-rejected", f"{what} raised {type(e).__name__}: {e}", tag)
+            return False, None
+
+    for it in range(n):
+        ctx.check_deadline()
+        mol, edges, _ = random_molecule(ctx, ml, 5, 9, name=f"al{it}")
+        other, _, _ = random_molecule(ctx, ml, 5, 9, name=f"ao{it}")
+        nat = mol.n_atoms
+        quads = G.some_quads(nat, rng, 20)
+
+        def vec_arg(form, own_arr, own_row):
+            """a 3-vector argument of the given form; returns (argument, value before, array that must stay bit-identical or None)"""
+            if form == "own-row":
+                a = own_arr[own_row]
+                return a, np.array(a, dtype=float).copy(), None
+            if form == "other-row":
+                a = other.coords[rng.below(other.n_atoms)]
+                return a, np.array(a, dtype=float).copy(), other.coords
+            if form == "read-only":
+                a = np.array([rng.range(-24, 24) / 8 for _ in range(3)])
+                if not np.any(a):
+                    a[0] = 1.0
+                a.setflags(write=False)
+                return a, np.array(a).copy(), a
+            a = np.array([rng.range(-3, 3) for _ in range(3)], dtype=np.int64)
+            if not np.any(a):
+                a[2] = 2
+            return a, np.array(a, dtype=float), a
+
+        forms = ["own-row", "other-row", "read-only", "int"]
+        # ---- rotation_matrix_from_axis(axis, angle) followed by transform(R) ----
+        for form in forms:
+            k = rng.below(nat)
+            while np.linalg.norm(mol.coords[k]) < 0.3:
+                k = (k + 1) % nat
+            ax, ax0, keepsame = vec_arg(form, mol.coords, k)
+            if np.linalg.norm(ax0) < 0.3:
+                continue
+            angle = rng.choice([math.pi, 1.0, -2.0, 0.5, math.pi / 2])
+            before = np.array(mol.coords).copy()
+            ob = other.coords.tobytes()
+            kb = None if keepsame is None else np.asarray(keepsame).tobytes()
+            tag = {"op": "rotation_matrix_from_axis + transform", "argument_form": form, "coords": before.tolist(), "axis": ax0.tolist(), "angle": angle,
+                   "axis_is_row": k if form == "own-row" else None}
+            R_exp = rma(ax0.copy(), angle)
+            ok, R = attempt("rotation_matrix_from_axis", lambda: rma(ax, angle), tag)
+            if ok:
+                effect("rotation_matrix_from_axis", R, R_exp, tag)
+                untouched("rotation_matrix_from_axis: the structure's coordinates", mol.coords, before.tobytes(), tag)
+                if kb is not None:
+                    untouched("rotation_matrix_from_axis: the axis argument", keepsame, kb, tag)
+                mol.transform(R)
+                after = np.array(mol.coords).copy()
+                effect("transform(rotation_matrix_from_axis(row of the structure's own coordinates, angle))" if form == "own-row" else "transform", after, before @ R_exp, tag)
+                d_ok, v_ok = G.rigid_same(before, after, quads)
+                if not d_ok:
+                    ctx.violation("C11:transform-changes-distances", f"axis given as {form}: interatomic distances changed", tag)
+                if not v_ok:
+                    ctx.violation("C11:transform-changes-handedness", f"axis given as {form}: signed volumes changed", tag)
+                untouched("transform: another structure's coordinates", other.coords, ob, tag)
+                B.add(f"transform {nat} {ftoks(before)} {ftoks(R_exp)}", expect_array(ctx, "transform (axis argument aliasing) differs from the model", tag, after, "c"))
+            ctx.case(["alias-rotaxis", form, before.tolist(), ax0.tolist(), angle], nontrivial=True)
+            ctx.count(f"alias.rotaxis+transform.{form}")
+        # ---- rotation_matrix_from_vectors(v1, v2) ----
+        for form in forms:
+            v1, v10, keep1 = vec_arg(form, mol.coords, rng.below(nat))
+            v2, v20, keep2 = vec_arg(forms[(forms.index(form) + 1) % 4], mol.coords, rng.below(nat))
+            if np.linalg.norm(v10) < 0.3 or np.linalg.norm(v20) < 0.3 or np.linalg.norm(np.cross(v10, v20)) < 0.1:
+                continue
+            before = np.array(mol.coords).copy()
+            ob = other.coords.tobytes()
+            tag = {"op": "rotation_matrix_from_vectors", "argument_form": form, "v1": v10.tolist(), "v2": v20.tolist()}
+            ok, R = attempt("rotation_matrix_from_vectors", lambda: rmv(v1, v2), tag)
+            if ok:
+                effect("rotation_matrix_from_vectors", R, rmv(v10.copy(), v20.copy()), tag)
+                rot_oracle(ctx, R, v10, v20, TOL, tag, "C11:rotvec")
+                untouched("rotation_matrix_from_vectors: the structure's coordinates", mol.coords, before.tobytes(), tag)
+                untouched("rotation_matrix_from_vectors: another structure's coordinates", other.coords, ob, tag)
+                for kp in (keep1, keep2):
+                    if kp is not None and kp is not other.coords:
+                        untouched("rotation_matrix_from_vectors: argument", kp, np.asarray(kp).tobytes(), tag)
+            ctx.case(["alias-rotvec", form, v10.tolist(), v20.tolist()], nontrivial=True)
+            ctx.count(f"alias.rotvec.{form}")
+        # ---- translate(v) on the molecule and through a substructure ----
+        for form in forms:
+            k = rng.below(nat)
+            v, v0, keepsame = vec_arg(form, mol.coords, k)
+            before = np.array(mol.coords).copy()
+            ob = other.coords.tobytes()
+            tag = {"op": "translate", "argument_form": form, "coords": before.tolist(), "v": v0.tolist(), "v_is_row": k if form == "own-row" else None}
+            ok, _ = attempt("translate", lambda: mol.translate(v), tag)
+            if ok:
+                after = np.array(mol.coords).copy()
+                effect("translate(row of the structure's own coordinates)" if form == "own-row" else "translate", after, before + v0, tag)
+                untouched("translate: another structure's coordinates", other.coords, ob, tag)
+                B.add(f"translate {nat} {ftoks(before)} {ftoks(v0)}", expect_array(ctx, "translate (argument aliasing) differs from the model", tag, after, "c"))
+            ctx.case(["alias-translate", form, before.tolist(), v0.tolist()], nontrivial=True)
+            ctx.count(f"alias.translate.{form}")
+            # substructure edit with a vector that is a row of the parent (inside or outside the selection)
+            sel = sorted(rng.shuffle(list(range(nat)))[:rng.range(1, nat - 1)])
+            sub = mol.substructure(rng.shuffle(list(sel)))
+            k = rng.below(nat)
+            v, v0, keepsame = vec_arg(form, mol.coords, k)
+            before = np.array(mol.coords).copy()
+            tag = {"op": "substructure.translate", "argument_form": form, "coords": before.tolist(), "sel": sel, "v": v0.tolist(),
+                   "v_is_row": k if form == "own-row" else None}
+            ok, _ = attempt("substructure.translate", lambda: sub.translate(v), tag)
+            if ok:
+                after = np.array(mol.coords).copy()
+                exp = before.copy()
+                exp[sel] = before[sel] + v0
+                effect("substructure.translate", after, exp, tag)
+                untouched("substructure.translate: another structure's coordinates", other.coords, ob, tag)
+            ctx.case(["alias-subtranslate", form, before.tolist(), sel, v0.tolist()], nontrivial=True)
+            ctx.count(f"alias.substructure-translate.{form}")
+        # ---- transform(M) with matrices held in other arrays / read-only / integer ----
+        for form in ("other-array-view", "read-only", "int"):
+            if form == "int":
+                M = np.array(rng.choice(INT_ROTS), dtype=np.int64)
+                keepsame = M
+            else:
+                _, Mf = rational_rotation(rng)
+                if form == "read-only":
+                    M = Mf.copy()
+                    M.setflags(write=False)
+                    keepsame = M
+                else:
+                    store = np.zeros((5, 3))
+                    store[1:4] = Mf
+                    M = store[1:4]
+                    keepsame = store
+            M0 = np.array(M, dtype=float).copy()
+            kb = np.asarray(keepsame).tobytes()
+            before = np.array(mol.coords).copy()
+            tag = {"op": "transform", "argument_form": form, "coords": before.tolist(), "R": M0.tolist()}
+            ok, _ = attempt("transform", lambda: mol.transform(M), tag)
+            if ok:
+                after = np.array(mol.coords).copy()
+                effect("transform", after, before @ M0, tag)
+                untouched("transform: the matrix argument", keepsame, kb, tag)
+                d_ok, v_ok = G.rigid_same(before, after, quads)
+                if not (d_ok and v_ok):
+                    ctx.violation("C11:transform-changes-distances", f"matrix given as {form}: not a rigid motion", tag)
+                B.add(f"transform {nat} {ftoks(before)} {ftoks(M0)}", expect_array(ctx, "transform (matrix argument form) differs from the model", tag, after, "c"))
+            ctx.case(["alias-transform", form, before.tolist(), M0.tolist()], nontrivial=True)
+            ctx.count(f"alias.transform.{form}")
+        # ---- ensembles: translate / rotate / align with aliased arguments ----
+        nc = rng.range(2, 3)
+        els = [a.element.name for a in mol.atoms]
+        confs = [G.build_molecule(ml, els, edges, G.random_coords(rng, nat), name="ae") for _ in range(nc)]
+        ens = ml.ConformerEnsemble(confs)
+        ens_o = ml.ConformerEnsemble([G.build_molecule(ml, els, edges, G.random_coords(rng, nat), name="ao") for _ in range(nc)])
+        for form in ("own-row", "own-column", "other-column", "read-only", "int"):
+            c, k = rng.below(nc), rng.below(nat)
+            keepsame = None
+            if form == "own-row":
+                v = ens.coords[c, k]
+            elif form == "own-column":
+                v = ens.coords[:, k]
+            elif form == "other-column":
+                v = ens_o.coords[:, k]
+                keepsame = ens_o.coords
+            elif form == "read-only":
+                v = np.array([[rng.range(-24, 24) / 8 for _ in range(3)] for _ in range(nc)])
+                v.setflags(write=False)
+                keepsame = v
+            else:
+                v = np.array([[rng.range(-3, 3) for _ in range(3)] for _ in range(nc)], dtype=np.int64)
+                keepsame = v
+            v0 = np.array(v, dtype=float).copy()
+            kb = None if keepsame is None else np.asarray(keepsame).tobytes()
+            before = np.array(ens.coords).copy()
+            tag = {"op": "ens.translate", "argument_form": form, "coords": before.tolist(), "v": v0.tolist()}
+            ok, _ = attempt("ens.translate", lambda: ens.translate(v), tag)
+            if ok:
+                after = np.array(ens.coords).copy()
+                exp = before + (v0 if v0.ndim == 1 else v0[:, None, :])
+                effect(f"ens.translate({form} of the ensemble's coordinates)" if form.startswith("own") else "ens.translate", after, exp, tag)
+                if kb is not None:
+                    untouched("ens.translate: argument / another ensemble's coordinates", keepsame, kb, tag)
+                for cc in range(nc):
+                    d_ok, v_ok = G.rigid_same(before[cc], after[cc], quads)
+                    if not (d_ok and v_ok):
+                        ctx.violation("C11:ens-translate-changes-distances", f"vector given as {form}: conformer {cc} not moved rigidly", tag)
+                B.add(f"enstranslate2 {nc} {nat} {ftoks(before)} {ftoks(v0 if v0.ndim == 2 else np.tile(v0, (nc, 1)))}",
+                      expect_array(ctx, "ensemble translate (argument aliasing) differs from the model", tag, after, "e"))
+            ctx.case(["alias-enstranslate", form, before.tolist(), v0.tolist()], nontrivial=True)
+            ctx.count(f"alias.ens-translate.{form}")
+        # axis taken from the ensemble's own coordinates, then rotate
+        c, k = rng.below(nc), rng.below(nat)
+        if np.linalg.norm(ens.coords[c, k]) > 0.3:
+            axv = ens.coords[c, k]
+            ax0 = np.array(axv).copy()
+            angle = rng.choice([math.pi, 1.0, -2.0])
+            before = np.array(ens.coords).copy()
+            tag = {"op": "rotation_matrix_from_axis(ens.coords[c, k]) + ens.rotate", "coords": before.tolist(), "conformer": c, "atom": k, "angle": angle}
+            R_exp = rma(ax0.copy(), angle)
+            ok, R = attempt("rotation_matrix_from_axis", lambda: rma(axv, angle), tag)
+            if ok:
+                untouched("rotation_matrix_from_axis: the ensemble's coordinates", ens.coords, before.tobytes(), tag)
+                ens.rotate(R)
+                after = np.array(ens.coords).copy()
+                effect("ens.rotate(rotation_matrix_from_axis(ens.coords[c, k], angle))", after, before @ R_exp, tag)
+                for cc in range(nc):
+                    d_ok, v_ok = G.rigid_same(before[cc], after[cc], quads)
+                    if not (d_ok and v_ok):
+                        ctx.violation("C11:ens-rotate-changes-distances", f"axis = ens.coords[{c}, {k}]: conformer {cc} not moved rigidly", tag)
+            ctx.case(["alias-ensrotate", before.tolist(), c, k, angle], nontrivial=True)
+            ctx.count("alias.ens-rotate.own-row-axis")
+        for form in ("other-array-view", "read-only", "int"):
+            if form == "int":
+                Rs = np.array([rng.choice(INT_ROTS) for _ in range(nc)], dtype=np.int64)
+                keepsame = Rs
+            else:
+                mats = np.array([rational_rotation(rng)[1] for _ in range(nc)])
+                if form == "read-only":
+                    Rs = mats.copy()
+                    Rs.setflags(write=False)
+                    keepsame = Rs
+                else:
+                    store = np.zeros((nc + 2, 3, 3))
+                    store[1:nc + 1] = mats
+                    Rs = store[1:nc + 1]
+                    keepsame = store
+            R0 = np.array(Rs, dtype=float).copy()
+            kb = np.asarray(keepsame).tobytes()
+            before = np.array(ens.coords).copy()
+            tag = {"op": "ens.rotate(stack)", "argument_form": form, "coords": before.tolist(), "R": R0.tolist()}
+            ok, _ = attempt("ens.rotate", lambda: ens.rotate(Rs), tag)
+            if ok:
+                after = np.array(ens.coords).copy()
+                effect("ens.rotate", after, before @ R0, tag)
+                untouched("ens.rotate: the matrix argument", keepsame, kb, tag)
+            ctx.case(["alias-ensrotate-stack", form, before.tolist(), R0.tolist()], nontrivial=True)
+            ctx.count(f"alias.ens-rotate.{form}")
+        # center_at_core / align: index lists, the reference's parent, vec must be left as they were
+        core = rng.shuffle(list(range(nat)))[:rng.range(4, min(nat, 5))]
+        core_before = list(core)
+        before = np.array(ens.coords).copy()
+        ens.center_at_core(core)
+        if core != core_before:
+            ctx.violation("C11:argument-modified", "center_at_core changed the index list it was given", {"op": "center_at_core", "core": core_before})
+        refm = G.build_molecule(ml, ["C"] * nat, edges, G.random_coords(rng, nat), name="refhost")
+        refm.translate(-refm.coords[core].mean(axis=0))
+        refsub = refm.substructure(core)
+        refb = refm.coords.tobytes()
+        for form in ("own-row", "other-row", "read-only", "int", "none"):
+            idxs = [list(core)]
+            if form == "none":
+                vec, vec0, keepsame = None, None, None
+            else:
+                vec, vec0, keepsame = vec_arg(form, mol.coords, rng.below(nat))
+            kb = None if keepsame is None else np.asarray(keepsame).tobytes()
+            ob = other.coords.tobytes()
+            start = np.array(mol.coords).copy()
+            tag = {"op": "Molecule.align_to_ref_coords", "argument_form_of_vec": form, "coords": start.tolist(), "core": core_before,
+                   "vec": None if vec0 is None else vec0.tolist()}
+            ok, ret = attempt("align_to_ref_coords", lambda: mol.align_to_ref_coords(G.kabsch, idxs, refsub, vec), tag)
+            if ok:
+                final = np.array(mol.coords).copy()
+                target = np.frombuffer(refb, dtype=float).reshape(-1, 3)[core] + (0 if vec0 is None else vec0)
+                if abs(G.rmsd(final[core], target) - float(ret)) > 1e-8:
+                    ctx.violation("C11:aliased-argument-wrong-effect" if form == "own-row" else "C11:align-reports-wrong-rmsd",
+                                  f"align with vec given as {form}: returned {float(ret)!r}, achieved {G.rmsd(final[core], target)!r} "
+                                  "against reference + (vec as it was before the call)", tag)
+                d_ok, v_ok = G.rigid_same(start, final, quads)
+                if not (d_ok and v_ok):
+                    ctx.violation("C11:align-changes-distances", f"align with vec given as {form}: not a rigid motion", tag)
+                untouched("align_to_ref_coords: the reference's parent structure", refm.coords, refb, tag)
+                untouched("align_to_ref_coords: another structure's coordinates", other.coords, ob, tag)
+                if kb is not None and form != "other-row":
+                    untouched("align_to_ref_coords: vec", keepsame, kb, tag)
+                if idxs != [core_before]:
+                    ctx.violation("C11:argument-modified", "align_to_ref_coords changed the index lists it was given", tag)
+            ctx.case(["alias-align", form, start.tolist(), core_before], nontrivial=True)
+            ctx.count(f"alias.align.vec={form}")
+        # the same for the ensemble: vec = one of its own rows (1-d) / one of its own columns (one vector per conformer)
+        for form in ("own-row", "own-column", "read-only"):
+            c, k = rng.below(nc), rng.below(nat)
+            if form == "own-row":
+                vec = ens.coords[c, k]
+            elif form == "own-column":
+                vec = ens.coords[:, k]
+            else:
+                vec = np.array([rng.range(-16, 16) / 8 for _ in range(3)])
+                vec.setflags(write=False)
+            vec0 = np.array(vec, dtype=float).copy()
+            idxs = [list(core)]
+            start = np.array(ens.coords).copy()
+            tag = {"op": "ens.align_to_ref_coords", "argument_form_of_vec": form, "coords": start.tolist(), "core": core_before, "vec": vec0.tolist()}
+            ok, ret = attempt("ens.align_to_ref_coords", lambda: ens.align_to_ref_coords(G.kabsch, idxs, refsub, vec), tag)
+            if ok:
+                final = np.array(ens.coords).copy()
+                refc = np.frombuffer(refb, dtype=float).reshape(-1, 3)[core]
+                for cc in range(nc):
+                    target = refc + (vec0 if vec0.ndim == 1 else vec0[cc])
+                    if abs(G.rmsd(final[cc][core], target) - float(ret[cc])) > 1e-8:
+                        ctx.violation("C11:aliased-argument-wrong-effect" if form.startswith("own") else "C11:align-reports-wrong-rmsd",
+                                      f"ensemble align with vec given as {form}: conformer {cc} returned {float(ret[cc])!r}, achieved "
+                                      f"{G.rmsd(final[cc][core], target)!r} against reference + (vec as it was before the call)", tag)
+                    d_ok, v_ok = G.rigid_same(start[cc], final[cc], quads)
+                    if not (d_ok and v_ok):
+                        ctx.violation("C11:align-changes-distances", f"ensemble align with vec given as {form}: conformer {cc} not moved rigidly", tag)
+                untouched("ens.align_to_ref_coords: the reference's parent structure", refm.coords, refb, tag)
+            ctx.case(["alias-ens-align", form, start.tolist(), core_before], nontrivial=True)
+            ctx.count(f"alias.ens-align.vec={form}")
+
+
 def run(ctx):
     ctx.rule = ("rotation constructors: rational unit vectors (Pythagorean quadruples ≤ 21, random signs/permutations, scaled by "
                 "1e-3…100) and tangent-half-angle (sin, cos) incl. angle 0/±90°/180°; degenerate neighbourhoods: v2 = −v1 + δ·⊥ for "
@@ -948,6 +1309,9 @@ def run(ctx):
                 "alignment also on molecules holding 2–3 DISTINCT occurrences of the core (different places and poses, the others perturbed), the "
                 "reference taken from one site which is put at EVERY position of the candidate list (optionally plus a symmetry mapping), 1–3 conformers; "
                 "the achieved RMSD is recomputed from the final coordinates for the mapping the call claims (the one whose reported value is returned). "
+                "Argument aliasing: every operation taking a vector / matrix / reference / index list is called with rows and columns of the object's OWN "
+                "coordinate array, views of another object's array, read-only arrays and integer arrays; effect = the documented one for the value before "
+                "the call, everything outside the moved object bit-identical afterwards. "
                 "Non-trivial: the operation is not the identity (a ≠ b, angle ≠ 0, v ≠ 0, target ≠ current dihedral); distinct by input.")
     ctx.assumptions += [
         "A-fp: float64 evaluation of the rotation/translation expressions is within 1e-9 (absolute, relative above 1) of exact arithmetic on the generated inputs; within 1e-6 in the near-antiparallel neighbourhood where the code divides by 1 + c ≥ 1e-8",
@@ -963,6 +1327,8 @@ def run(ctx):
     sec_rotvec(ctx, B, 400 if q else 20000)
     sec_rotvec_degenerate(ctx, B, 12 if q else 250)
     sec_rotaxis(ctx, B, 200 if q else 8000)
+    B.run(ctx)
+    sec_aliasing(ctx, B, 8 if q else 150)
     B.run(ctx)
     for _ in range(1 if q else 15):
         sec_molecules(ctx, B, 40 if q else 100)
